@@ -1,5 +1,6 @@
 import QuickAdd.Model.Rules
 import QuickAdd.Lemmas.Regex
+import QuickAdd.Lemmas.RegexFuel
 import QuickAdd.Gen.RegexTable
 import QuickAdd.Gen.RuleSigs
 import QuickAdd.Gen.Vocab
@@ -24,6 +25,12 @@ theorem table_nonnull : (table.all fun p => decide (0 < minLen p.rx)) = true := 
 theorem no_zero_length_match (p : Pat) (hp : p ∈ table) (s : List Nat) (m : Nat × Nat × Caps) (hm : m ∈ findAll rxTabs p.rx s) : m.1 < m.2.1 := by
   have h := List.all_eq_true.mp table_nonnull p hp
   exact findAll_nonempty rxTabs p.rx (by simpa using h) s m hm
+
+/-- **the matcher's fuel is sufficient**: for every table set, pattern, text and offset, running the matcher with more fuel
+    than `matchAt` uses never changes the answer — `matchAt` is the fuel-free priority semantics of the pattern, so no theorem
+    about `findAll` is true "because the fuel ran out" (`Lemmas/RegexFuel`: nesting depth ≤ pattern size · (remaining length + 1)) -/
+theorem matcher_fuel_sufficient (T : Tabs) (r : Rx) (st : St) (f : Nat) (hf : fuelFor r st.rest.length ≤ f) :
+    mtc T f r st [] (fun st' cs' => some (st'.pos, cs')) = matchAt T r st := matchAt_fuel_indep T r st f hf
 
 def noAdjacent : List Pred → Bool
   | .regex _ :: .regex b :: rest => false && noAdjacent (.regex b :: rest)
